@@ -139,8 +139,10 @@ theorem processDepositsForPool_same (env : Env) (k : PoolKey) (s : State) (deps 
   split at h
   · cases h
   · cases h
-  · obtain ⟨coins, _, h2⟩ := Outcome.bind_eq_ok h
-    cases h2; exact ⟨rfl, rfl, rfl⟩
+  · split at h
+    · cases h; exact SameFM.refl s
+    · obtain ⟨coins, _, h2⟩ := Outcome.bind_eq_ok h
+      cases h2; exact ⟨rfl, rfl, rfl⟩
 
 theorem processDeposits_same (env : Env) (s s' : State) (h : processDeposits env s = .ok s') :
     SameFM s s' := by
